@@ -4,7 +4,7 @@ cd /repo || exit 2
 if [ -n "$(git status --porcelain --untracked-files=no)" ]; then echo "/repo dirty"; exit 2; fi
 ALL="C01 C02 C03 C04 C05 C06 C07 C08 C09 C10 C11 C12 C13 C14 C15 C16 C17 C18 C19"
 OUT=/verif/seeded/MATRIX.tsv
-: > $OUT
+[ -z "${1:-}" ] && : > $OUT
 for d in /verif/seeded/*/ ; do
   id=$(basename $d)
   [ -f $d/patch.diff ] || continue
